@@ -44,6 +44,10 @@ type c12Plan struct {
 	BodySize  int       `json:"body_size"` // server packets carry at most this many body bytes
 	// Unknown: after the k-th client message (overall) the peer injects a packet for a channel that does not exist.
 	Unknown []int `json:"unknown,omitempty"`
+	// CloseEarly > 0: the root closes the connection after that many scheduling steps, while the tasks are inside
+	// NewChannel / SendPackage / NextPackage / Close. Then only safety is judged: every task returns, nothing
+	// panics, no data race, the reader ends.
+	CloseEarly int `json:"close_early,omitempty"`
 }
 
 type c12 struct{}
@@ -103,6 +107,9 @@ func (c12) Gen(r *Rand, idx int, tier string) interface{} {
 		// one long-lived channel: more than 256 packets, so the packet numbers wrap
 		p.Tasks = p.Tasks[:1]
 		p.Tasks[0] = c12Task{Rounds: 270 + r.Intn(60), Pkgs: 0}
+	}
+	if r.Pct(10) {
+		p.CloseEarly = 1 + r.Intn(60)
 	}
 	p.BodySize = Pick(r, []int{1, 5, 9, 18, 504})
 	total := 0
@@ -270,6 +277,11 @@ func (c12) Run(plan interface{}, schedSeed uint64, replay []simrt.Choice, lenien
 		}
 		if c != 0 {
 			if ci == nil {
+				if p.CloseEarly > 0 && pk.H.Type == peer.BufClose {
+					// Conn.Close met a channel whose NewChannel had registered it but not yet written its setup
+					// packet: the teardown for a channel the server never saw is a shutdown artefact, not judged
+					return
+				}
 				wireViol = append(wireViol, fmt.Sprintf("wrong-channel-id|packet for channel %d which was never set up (%s)", c, pk.H))
 				return
 			}
@@ -430,6 +442,17 @@ func (c12) Run(plan interface{}, schedSeed uint64, replay []simrt.Choice, lenien
 				}
 			}))
 		}
+		if p.CloseEarly > 0 {
+			for i := 0; i < p.CloseEarly; i++ {
+				simrt.Yield(0)
+			}
+			simrt.Record("conn-close-early", "", "", 0)
+			if err := conn.Close(); err != nil {
+				connCloseErr = err.Error()
+			}
+			simrt.Join(ts...)
+			return
+		}
 		simrt.Join(ts...)
 		// drain connection errors nobody consumed (invalid channel reports): wait with a short deadline, so
 		// that queued connection errors are returned before the deadline error
@@ -476,6 +499,19 @@ func (c12) Run(plan interface{}, schedSeed uint64, replay []simrt.Choice, lenien
 	}
 	if len(blocked) > 0 {
 		v.Violate("deadlock", "deadlock "+ParkSig(out, Sites), "tasks blocked forever: %v", out.Parked)
+	}
+	if p.CloseEarly > 0 {
+		for _, pk := range out.Parked {
+			if pk.Op == "read" {
+				v.Violate("reader-not-ended", "reader goroutine still running after Conn.Close", "the connection was closed while tasks were using it; the reader task is still parked: %v", out.Parked)
+			}
+		}
+		v.Probe("connection-closed-under-load")
+		if v.Class == "" {
+			v.Nontrivial = fmt.Sprintf("%016x", out.LogHash)
+		}
+		v.Sample = map[string]interface{}{"tasks": len(p.Tasks), "close_early": p.CloseEarly, "steps": out.Steps}
+		return v, out
 	}
 	totalInvalid := mainInvalid
 	concurrentSetup := false
